@@ -36,7 +36,7 @@ for d in /verif/seeded/$glob/; do
   echo "$row"
 done
 # must-stay-green set: every cell must be "-"
-if [ "$glob" = "*" ]; then
+if [ "$glob" = "*" ] || [ -n "${FORCE_GREEN:-}" ]; then
   for d in /verif/seeded/green/*/; do
     [ -f "$d/patch.diff" ] || continue
     name="green/$(basename $d)"
